@@ -106,7 +106,10 @@ def parse_line(line):
     parts = head.split('|')
     w = parts[0].split()
     status = w[0] if w else ''
-    out = [int(x) for x in w[1:]] if status in ('ok', 'final') else []
+    try:
+        out = [int(x) for x in w[1:]] if status in ('ok', 'final') else []
+    except ValueError:
+        status, out = 'garbled', []
     slots = []
     for p in parts[1:]:
         d = {}
